@@ -30,6 +30,29 @@ SPEC = Spec(
         Harness(name="exporter", module="exporter/exporterhelper/xexporterhelper", pkg="exporter/exporterhelper/xexporterhelper",
                 files={"zz_verif_c01_exporter_test.go": "c01/exporter_test.go"},
                 test="TestVerifC01Exporter", driver="drv_c01", n={"quick": 160, "thorough": 2400}, timeout_s=900),
+        # a stored request exported in several flushes with a different outcome per flush (permanent / ok / parked in the retry
+        # back-off), clean Shutdown, restart on the same storage; real exporters, all four signals, both batcher configurations
+        Harness(name="split", module="exporter/exporterhelper/xexporterhelper", pkg="exporter/exporterhelper/xexporterhelper",
+                files={"zz_verif_c01_exporter_test.go": "c01/exporter_test.go",
+                       "zz_verif_c01_exporter_split_test.go": "c01/exporter_split_test.go"},
+                test="TestVerifC01ExporterSplit", driver="drv_c01", n={"quick": 48, "thorough": 480}, timeout_s=900),
+        # LAWFUL ENCODING on the real encodings of the four signals (monitor, Go oracle): stored bytes decode, to the same request
+        Harness(name="enc", module="exporter/exporterhelper/xexporterhelper", pkg="exporter/exporterhelper/xexporterhelper",
+                files={"zz_verif_c01_encoding_test.go": "c01/encoding_test.go"},
+                test="TestVerifC01Encoding", driver=None, n={"quick": 2000, "thorough": 20000}, timeout_s=600),
+        # the glue machine (Model/C01Glue.lean): exact differential against NewQueueSender -> QueueBatch -> asyncQueue consumers ->
+        # persistentQueue over the real retrySender, go1.26 synctest (run to quiescence after every op, blocking export function)
+        Harness(name="glue", module="exporter", pkg="exporter/exporterhelper/internal", go="go1.26",
+                files={"zz_verif_c01_glue_test.go": "c01/glue_test.go"},
+                test="TestVerifC01Glue", driver="drv_c01", n={"quick": 6000, "thorough": 60000}, timeout_s=900),
+        # options -> BaseExporter fields -> merged queue configuration (Model/C01Config.lean: applyOpts, hasQueueSender, mergeLegacy)
+        Harness(name="config", module="exporter", pkg="exporter/exporterhelper/internal", go="go1.26",
+                files={"zz_verif_c01_glue_test.go": "c01/glue_test.go", "zz_verif_c01_config_test.go": "c01/config_test.go"},
+                test="TestVerifC01Config", driver="drv_c01", n={"quick": 3000, "thorough": 30000}, timeout_s=600),
+        # Config -> the queue object newQueueBatch builds, and Config.Validate (Model/C01Config.lean: build, validate)
+        Harness(name="cfgbuild", module="exporter", pkg=_PKG,
+                files={"zz_verif_c01_config_build_test.go": "c01/config_build_test.go"},
+                test="TestVerifC01ConfigBuild", driver="drv_c01", n={"quick": 3000, "thorough": 30000}, timeout_s=600),
     ],
     rule="pq: the REAL persistentQueue[uint64] (Start/Offer/Read/OnDone/Shutdown) on a map-backed storage.Client that can kill "
          "the incarnation right after its k-th call (panic unwinds the operation; a new queue object is started on the same map). "
@@ -71,6 +94,34 @@ SPEC = Spec(
          "undec (monitor, Go oracle, no model): random pq scripts with deaths under an Encoding whose Unmarshal fails for a quarter of the "
          "offered ids; decodable requests are checked live (stored until finalised, handed over), undecodable ones that leave storage "
          "without a hand-off are reported and counted. "
+         "Since round 2 (second session): every third `done` of pq/block reaches the queue through the REAL refCountDone (default_batcher.go) "
+         "with one error per flush (2-3 flushes; oc=shut iff SOME flush is shutdown-classified, at a random position, the others nil / plain / "
+         "permanent / shutdown): `tr errparts`, the Lean `aggregate` must classify alike; offers are also generated AFTER Shutdown (no blocking ones). "
+         "split (real exporters, all four signals x {legacy WithBatcher, sending_queue::batch}, persistent queue, 1 consumer, retry back-off 1 h): "
+         "1-3 requests of 2-3 flushes each (max_size = items/flushes), one planned behaviour per flush (ok | permanent | retryable = parked in the "
+         "back-off until Shutdown); clean Shutdown in BaseExporter order; oracle: a request not all of whose flushes returned finally is still stored "
+         "(also when an earlier flush failed permanently) and is handed over completely by a second incarnation; cases 0-7 = plan [permanent, retryable] "
+         "for every signal and batcher configuration; non-trivial = some request was interrupted by the shutdown. "
+         "glue (go1.26 synctest, EXACT differential against Model/C01Glue.lean): real NewQueueSender -> QueueBatch -> obsQueue -> asyncQueue (1-2 consumer "
+         "goroutines) -> disabledBatcher -> persistentQueue (capacity 1-4) over the real retrySender (or none), export function that blocks until the "
+         "harness lets it return ok / permanent / retryable; random scripts of 4-33 ops over offer (also after queue Shutdown) / ret / timer (virtual "
+         "hour: the back-offs fire) / retrySender.Shutdown / QueueBatch.Shutdown / crash / start, deaths right after the k-th storage call of an op "
+         "(0/10/25 % per op, also inside recovery and inside the reads that consumers start on their own); after every op: run to quiescence, compare "
+         "result, requests inside the export function, requests parked in the back-off, decoded storage; every case ends with crash + start + drain; "
+         "non-trivial = a death landed inside an op; Lean trace oracle on the implementation's events (accept / export invoked / export returned "
+         "finally / reachable ids). "
+         "enc (monitor, Go oracle): generated payloads of all four signals (1-3 resources, scopes, 0-3 items each, attributes of every value "
+         "kind incl. nested maps, bytes, empty and non-ASCII strings; span events/links; all five metric types; log bodies; profiles with "
+         "samples): the proto bytes the queue stores must be decoded by the signal's registered Encoding (else the queue deletes the item "
+         "without hand-off), to a request with the same item count whose Marshal gives the same bytes. "
+         "config / cfgbuild (exact differential against Model/C01Config.lean): config = 1-4 random options (WithQueueBatch with a random "
+         "Config incl. disabled ones, WithBatcher, WithRetry, any order; cases 0-3 = enabled persistent queue next to the legacy batcher) "
+         "through the real NewBaseExporter, then the fields of the BaseExporter (queue config, batcher config, retry, queue sender / retry "
+         "sender present) and newQueueBatchConfig of them; cfgbuild = random Config (all sizers incl. one without registered sizer, storage "
+         "id or not, batch or not, legacy or not) through the real newQueueBatch (inspected: memory or persistent queue, storage id, capacity, "
+         "blocking, sizer, consumers, batcher and its sizer) and Config.Validate (which check fails first); Lean oracles on the implementation: a "
+         "config with storage is built as a persistent queue on that storage with the configured capacity and blocking; the legacy merge keeps "
+         "storage / size / blocking / consumers; non-trivial = a storage id is configured. "
          "distinct = distinct op sequences (sha1 of the op lines).",
     trusted_base=[
         "Lean 4.33.0 kernel; axioms per theorem listed under axioms_per_theorem (subset of propext, Classical.choice, Quot.sound)",
@@ -95,27 +146,51 @@ SPEC = Spec(
         "classification of the error handed to OnDone: experr.IsShutdownErr(err) = the error tree contains a shutdown error "
         "(C01_classification_iff on the model side, direct differential on the real function over wrap/join/multierr trees)",
         "extension only (storage errors): a storage call that returns an error has no effect on the stored data",
+        "glue machine Model/C01Glue.lean (asyncQueue consumer loop, disabledBatcher.Consume, export closure of NewQueueSender, "
+        "retrySender.Send outcomes, OnDone classification, BaseExporter shutdown order): hand-written, tied by the exact differential of "
+        "harness glue (real stack under synctest; which goroutine takes which item is not observable, the driver lets the lowest idle one "
+        "read) and by translator data (C01_gen_glue_shapes: consumer loop, Consume, refCountDone combination, export closure, stopCh "
+        "branches, onDone keep-guard, shutdown order, all regenerated from the source). Environment of the glue machine: the export "
+        "function (what it returns and when), the Go scheduler (which goroutine runs), timers",
+        "configuration model Model/C01Config.lean (WithQueueBatch / WithBatcher / WithRetry, NewBaseExporter's choice of senders, "
+        "newQueueBatchConfig, newQueueBatch, Config.Validate): hand-written, exact differentials config / cfgbuild on every run; "
+        "component.ID abstracted to a number, math.MaxInt / runtime.NumCPU passed in as observed",
+        "death model of harness glue / split / exporter: the storage client of the incarnation goes dead right after the k-th call "
+        "(everything the incarnation does afterwards has no durable effect) instead of unwinding the goroutine",
     ],
     assumptions=[
-        "SCOPE OF THE PROOF: the theorems are about persistent_queue.go; `handed` in the theorems means `Read returned the request to the "
-        "consumer`. The step from there to `the export function was invoked, and Done is called with its outcome after it returned` "
-        "(asyncQueue loop, batcher as consume function, obsQueue, senders, option merging) has no theorem in C01: it is MONITORED "
-        "(harnesses e2e and exporter: real stack, sampled scripts, Go oracle incl. `a request leaves storage only after an export of it "
-        "returned a final outcome` observed at the storage client, plus the proven-sound Lean trace checker) and the two glue functions "
-        "asyncQueue.Start loop / disabledBatcher.Consume are shape-pinned by the translator. `retry interrupted by shutdown returns a "
-        "shutdown error` is C05 (C05_shutdown_classified, C05_shutdown_survives_wrapping); combining part errors is C04 (refCountDone)",
+        "SCOPE OF THE PROOF: queue level = persistent_queue.go (`handed` = Read returned). Glue level = Model/C01Glue.lean: the consumer "
+        "goroutines of asyncQueue, disabledBatcher.Consume, the export closure, retrySender.Send and the classification in onDone are "
+        "MODELLED and proved (refinement to the queue machine, Done only on pending hand-offs, finalised only after the export returned, "
+        "retry interrupted by shutdown keeps the request, exported at least once under a fair schedule) and tied by an exact differential. "
+        "NOT in the glue machine: the batching consumer defaultBatcher (merge/split, timers, worker pool) - of it only the error "
+        "combination of refCountDone is modelled (C01_refcount_aggregate_shutdown_iff, driven through the real refCountDone in pq/block) "
+        "and the whole is MONITORED on real exporters (harnesses split, exporter, e2e); obs_report_sender / timeout_sender / option merging "
+        "are monitored only (harness exporter). `retry interrupted by shutdown returns a shutdown error` is also C05's theorem",
         "LAWFUL ENCODING: Unmarshal succeeds on every stored request body. The code deletes an item whose Unmarshal fails (getNextItem, "
         "recovery) without any hand-off; the model stores requests, not bytes, so clause B is proved for encodings that decode what they "
-        "encoded (harness undec runs an encoding that does not, with a live oracle for the decodable requests, and counts the others)",
-        "IDENTITY: requests are compared by value, the id is their identity; the per-request reading of the theorems is for scripts whose "
-        "offers are pairwise different (C01_accepted_nodup_of_distinct_offers, C01_no_loss_distinct); that fire never inspects the id is "
-        "not proved in Lean (the real code never looks into the payload; the differential carries ids as payload bytes)",
-        "Done is called at most once per hand-off and only on the incarnation that handed the request out (the model ignores `done i` "
-        "for an index that is not outstanding; the real onDone has no such guard)",
+        "encoded (harness undec runs an encoding that does not, with a live oracle for the decodable requests, and counts the others; "
+        "harness enc checks the round trip of the REAL encodings of the four signals on generated payloads - sampled, not proved: the "
+        "proto codecs of pdata are C07/C08's subject)",
+        "IDENTITY: requests are compared by value, the id is their identity; the per-request reading is proved for scripts whose offers "
+        "are pairwise different (C01_no_loss_distinct) and every script is the image of such a script under a renaming of ids that "
+        "commutes with the machine (C01_fire_id_blind, C01_no_loss_every_script) - no assumption left here for the queue machine; the "
+        "glue machine and the error extension are not re-proved id-blind",
+        "Done once per hand-off, on the handing incarnation: PROVED for the glue machine (disabledBatcher path: "
+        "C01_glue_done_only_on_pending_handoff, C01_glue_held_is_pending); with the batching consumer it rests on refCountDone calling the "
+        "queue's Done exactly when its counter reaches zero (shape pinned by the translator; C04 models the counter)",
         "`accepted` in the theorems = enqueue batch committed, a superset of `Offer returned nil` (C01_offer_ok_accepted)",
         "storage calls that RETURN AN ERROR are outside the property (it quantifies over deaths); they are modelled and injected as an "
         "extension (Model/C01Err.lean, mode=err, differential only, C01_ext_errors_*), including the fallbacks of itemDispatchingFinish",
-        "the liveness theorems (C01_handed_at_least_once, C01_drain*) assume that eventually one start-up and one drain complete without "
-        "a further death and that every hand-off of that drain completes finally",
+        "FAIRNESS of the liveness theorems (C01_handed_at_least_once, C01_drain*, C01_glue_exported_at_least_once): eventually one start-up "
+        "and one drain complete without a further death, a consumer goroutine is scheduled, the export function returns and the outcome "
+        "is final (the schedule is a total function of the model: restart/drainAll, restartG/drainAllG)",
+        "C01_glue_shutdown_outcome_only_when_stopping assumes that the export function itself never returns a shutdown-classified error",
     ],
 )
+
+# development aid: VERIF_C01_ONLY=glue,split ./check C01 runs only the named harnesses (never set in sweeps)
+import os as _os
+if _os.environ.get("VERIF_C01_ONLY"):
+    _only = set(_os.environ["VERIF_C01_ONLY"].split(","))
+    SPEC.harnesses = [h for h in SPEC.harnesses if h.name in _only]
